@@ -1,16 +1,24 @@
 pub mod c08;
 pub mod c09;
+pub mod c10;
+pub mod c11;
+pub mod c14;
+pub mod c16;
 
 use crate::engine::PropertyDef;
 
 pub fn all_ids() -> Vec<&'static str> {
-    vec!["C08", "C09"]
+    vec!["C08", "C09", "C10", "C11", "C14", "C16"]
 }
 
 pub fn property(id: &str) -> Option<PropertyDef> {
     match id {
         "C08" => Some(c08::def()),
         "C09" => Some(c09::def()),
+        "C10" => Some(c10::def()),
+        "C11" => Some(c11::def()),
+        "C14" => Some(c14::def()),
+        "C16" => Some(c16::def()),
         _ => None,
     }
 }
